@@ -79,6 +79,12 @@ class TarSuite(Suite):
                 notes.append("link member with payload")
         return Verdict(ok, ok, "; ".join(notes)[:900])
 
+    matchers = {
+        # F5 (see C10): the filtered walk announces a file that Open (stateless matcher) refuses: WriteTar fails after the header
+        "F5": lambda op, impl, model: bool(impl.get("werr")) and "sfilter" in op and
+        any(bytes.fromhex(p).strip().startswith(b"!") for p in op["sfilter"].get("include", []) + op["sfilter"].get("exclude", [])),
+    }
+
     def nontrivial(self, op, impl, model):
         return len(op["src"]["tree"]) >= 3
 
